@@ -39,6 +39,21 @@ def _validate_feed_state(feed_mass: float, feed_temperature: float) -> None:
         )
 
 
+def _validate_heats(
+    evaporation_heat: float, condensation_heat: typing.Optional[float]
+) -> None:
+    """
+    Raises ValueError if a heat of the step is not a finite number
+    """
+    if not numpy.isfinite(evaporation_heat) or (
+        condensation_heat is not None and not numpy.isfinite(condensation_heat)
+    ):
+        raise ValueError(
+            "Heats of the step (%s, %s) are not finite numbers: the model left the range of its "
+            "property correlations, consider a smaller step" % (evaporation_heat, condensation_heat)
+        )
+
+
 @attr.s(auto_attribs=True)
 class Pervaporation:
     membrane: Membrane
@@ -421,6 +436,10 @@ class Pervaporation:
                     )
                 )
 
+            _validate_heats(
+                feed_evaporation_heat[step], permeate_condensation_heat[step]
+            )
+
             feed_mass.append(feed_mass[step] - d_mass_1 - d_mass_2)
 
             feed_composition.append(
@@ -597,6 +616,10 @@ class Pervaporation:
 
             feed_evaporation_heat.append(
                 evaporation_heat_1 * d_mass_1 + evaporation_heat_2 * d_mass_2
+            )
+
+            _validate_heats(
+                feed_evaporation_heat[step], permeate_condensation_heat[step]
             )
 
             feed_mass.append(feed_mass[step] - d_mass_1 - d_mass_2)
@@ -1136,6 +1159,10 @@ class Pervaporation:
                     )
                 )
 
+            _validate_heats(
+                feed_evaporation_heat[step], permeate_condensation_heat[step]
+            )
+
             feed_mass.append(feed_mass[step] - d_mass_1 - d_mass_2)
 
             feed_composition.append(
@@ -1455,6 +1482,10 @@ class Pervaporation:
 
             feed_evaporation_heat.append(
                 evaporation_heat_1 * d_mass_1 + evaporation_heat_2 * d_mass_2
+            )
+
+            _validate_heats(
+                feed_evaporation_heat[step], permeate_condensation_heat[step]
             )
 
             feed_mass.append(feed_mass[step] - d_mass_1 - d_mass_2)
